@@ -113,8 +113,12 @@ class Model(HoloPyObject):
         dummy_scatterer = fields['_dummy_scatterer']
         scatterer_parameters = read_map(maps['scatterer'], parameters)
         scatterer = dummy_scatterer.from_parameters(scatterer_parameters)
-        kwargs = {'scatterer': scatterer, 'theory': fields['theory']}
-        for key in ['optics', 'model', 'theory']:
+        # the theory's own parameters (e.g. a lens angle prior) belong to
+        # the theory, not to the model's constructor
+        theory_parameters = read_map(maps['theory'], parameters)
+        theory = fields['theory'].from_parameters(theory_parameters)
+        kwargs = {'scatterer': scatterer, 'theory': theory}
+        for key in ['optics', 'model']:
             kwargs.update(read_map(maps[key], parameters))
         model = cls(**kwargs)
         if model._parameters == parameters:
